@@ -218,6 +218,18 @@ func Rebuilt(name string) protoreflect.MessageDescriptor {
 	return d.(protoreflect.MessageDescriptor)
 }
 
+// RebuiltTypes resolves message, enum and extension types over the rebuilt files: what a program that
+// works with dynamicpb over loaded descriptors passes as Resolver when it decodes.
+func RebuiltTypes() *dynamicpb.Types {
+	rebuildAll()
+	if rebuiltTypes == nil {
+		rebuiltTypes = dynamicpb.NewTypes(rebuiltFiles)
+	}
+	return rebuiltTypes
+}
+
+var rebuiltTypes *dynamicpb.Types
+
 // ExtensionsOf lists the extension types that extend md, ordered by number: the linked ones for a
 // linked descriptor, dynamicpb extension types over rebuilt extension descriptors for a rebuilt one.
 func ExtensionsOf(md protoreflect.MessageDescriptor) []protoreflect.ExtensionType {
